@@ -45,6 +45,8 @@ var XMLStreamPreds = []string{
 	"[text()='x']", "[text()]", "[not(text())]",
 	"[b[@k='1']]", "[b[c]]", "[a[.='x']]",
 	"[@k='1' and b]", "[@k='1' or b]", "[a and not(b)]", "[@k='1' or .='x']",
+	"[@k='1' or b='x']", "[@k='0' and b='x']", "[@k='0' and .='x']", "[@k='1' and .='x']", "[@k='0' or a]", "[@k='0' or .='x']", "[@k='0' or .//c]",
+	"[@k='1' and not(b)]", "[@k!='0' or count(*)>1]",
 	"[.!=']']", "[.!='[']", "[name()='a']", "[local-name()!='b']",
 }
 
